@@ -287,10 +287,10 @@ func (c05) Run(t *testing.T, scenario any, job *Job, res *Result) {
 		if a.Type != "fifo" {
 			continue
 		}
-		an := strings.TrimRight(string(a.Name), "/")
+		an := filepath.Clean(string(a.Name))
 		for _, b := range sc.Entries {
-			bn := strings.TrimRight(string(b.Name), "/")
-			if (strings.HasPrefix(string(b.Name), an+"/") && bn != an) || (bn == an && b.Type != "fifo") {
+			bn := filepath.Clean(string(b.Name))
+			if (strings.HasPrefix(bn, an+"/") && bn != an) || (bn == an && b.Type != "fifo") {
 				// (a regular file of the same name is opened as its own basis)
 				res.Invalid = "an entry below, or under the same name as, a fifo of the same list"
 				return
